@@ -9,9 +9,9 @@ MANIFEST = dict(
     technique="TLA+ spec (OrmSessionExt.tla EXTENDS OrmSession.tla) + TLC exhaustive model checking; spec->code replay of every state-graph edge (both continuations) into a real Session")
 
 INVS = ["OneIdentity"]
-PROPS = ["AutoflushEquiv", "QuerySeesFlushed"]
-FOOTPRINT = ["QueryAll", "QueryV", "Get", "Read", "FQueryAll", "FQueryV", "FGet", "FRead", "FRefresh", "Refresh", "Add", "SetV", "Delete", "Flush"]
-READS = ("QueryAll", "QueryV", "Get", "Read", "Refresh")
+PROPS = ["AutoflushEquiv", "QuerySeesFlushed", "ColumnQuerySeesFlushed"]
+FOOTPRINT = ["QueryC", "FQueryC", "QueryAll", "QueryV", "Get", "Read", "FQueryAll", "FQueryV", "FGet", "FRead", "FRefresh", "Refresh", "Add", "SetV", "Delete", "Flush"]
+READS = ("QueryAll", "QueryV", "QueryC", "Get", "Read", "Refresh")
 
 
 def pending(frm):
@@ -21,9 +21,10 @@ def pending(frm):
 
 def spec(chk):
     q = chk.quick
-    acts = ["SetV", "Expire", "Query", "QueryV", "FQuery", "Get", "FGet", "Read", "FRead", "Refresh", "FRefresh"]
+    acts = ["SetV", "Expire", "Query", "QueryV", "QueryC", "FQuery", "Get", "FGet", "Read", "FRead", "Refresh", "FRefresh"]
     return dict(
-        cfgs=[dict(name="af", acts=acts, depth=5 if q else 6, deep_depth=7 if q else 8, eoc=True, random=200 if q else 2000)],
+        cfgs=[dict(name="af", acts=acts, depth=5 if q else 6, deep_depth=7 if q else 8, edge_sample=1.0,
+                   edge_probs={"QueryC": 0.35, "FQueryC": 0.2} if q else {"QueryC": 0.5, "FQueryC": 0.3}, eoc=True, random=200 if q else 2000)],
         invs=INVS, props=PROPS, footprint=FOOTPRINT,
         nontrivial=lambda frm, act: (act["a"] in READS or act["a"][1:] in READS) and pending(frm))
 
